@@ -1,11 +1,11 @@
 ENTRY = dict(
-    runner="C05", pkg="./cmd/c05", corr=["Corr.C05Corr"], n=dict(quick=60, thorough=3000),
+    runner="C05", pkg="./cmd/c05", corr=["Corr.C05Corr"], n=dict(quick=40, thorough=3000),
     rule="real UConns (UClient over a dummy net.Conn, BuildHandshakeState only) for every parrot whose spec carries a "
-         "padding extension (found from the specs at run time, 26 at this commit) x server-name lengths 0..255 (quick: 0,1,64,255, "
-         "the lengths putting the unpadded size at 255/256/507/508/511/512, one random; thorough: all) with the stock ALPN and "
+         "padding extension (found from the specs at run time, 26 at this commit) x server-name lengths 0..255 (quick: 0, 1, "
+         "the lengths putting the unpadded size at 256/507/508/511/512, one random; thorough: all) with the stock ALPN and "
          "session id, plus n random (parrot, server-name length, ALPN list, session-id length) variants; custom specs of "
          "GenericExtension bodies hitting every unpadded length 200..600 with the padding extension first/middle/last (quick: "
-         "250..262, 500..518 and every 5th); AlwaysPadToLen(n) directly around n, nil functor with hand-set state, zero-length "
+         "254..258, 505..514 and every 10th); AlwaysPadToLen(n) directly around n, nil functor with hand-set state, zero-length "
          "neighbours that make the bufio buffer exactly full, no extensions, two/three padding extensions (error); specs "
          "fingerprinted (Fingerprinter.FingerprintClientHello, i.e. FromRaw) from the parrots' own padded output and re-applied "
          "with the captured, a longer and a shorter server name. Every case: Hello.Raw recomputed by the model byte for byte. "
